@@ -17,13 +17,16 @@
     blank).  SQL statements are list operations; the UNIQUE(mailbox_id, uid)
     constraint is the explicit check in [insert].
 
-    State of the code modelled: /repo after the fix wave (fixes/01..05):
+    State of the code modelled: /repo after the fix wave (fixes/01..05, and
+    02d2f67: COPY / UID COPY / the Junk move take UIDs from uid_next; a240138:
+    plain COPY works):
     ClientState.ReadOnly ([ro]) is honoured by STORE / UID STORE / EXPUNGE /
     CLOSE; plain STORE resolves its sequence numbers to UIDs before the loop and
     then runs the loop body of UID STORE; rows are updated / moved by
     (mailbox_id, uid); MoveMessageToMailbox reports "not moved" when the
     message already is in the destination; flags are compared as whole words
-    (hasFlag, parseFlagsToSet, instr(' '||flags||' ', ' \Seen ')).
+    (hasFlag, instr(' '||lower(flags)||' ', ' \seen ')), without regard to
+    ASCII case (fixes/06; CalculateNewFlags likewise, see Model/Flags.v).
     No proofs in this file. *)
 From Coq Require Import String Ascii List Bool Arith ZArith.
 From Raven Require Import Base.GoStr Model.Flags.
@@ -89,16 +92,30 @@ Definition expand_uid (ls : list link) (mb : Z) (s : seqset) : list Z :=
          let lo := Z.min a b in let hi := Z.max a b in
          map lk_uid (filter (fun l => (lo <=? lk_uid l) && (lk_uid l <=? hi)) (mbox_links ls mb))) s.
 
-(** ---- MoveMessageToMailbox(messageID, source mailbox, source UID, ...);
+(** mailboxes.uid_next *)
+Definition next_of (nx : list (Z * Z)) (mb : Z) : Z :=
+  match find (fun p => fst p =? mb) nx with Some p => snd p | None => 1 end.
+(** UPDATE mailboxes SET uid_next = uid_next + 1 WHERE id = ? *)
+Definition bump (nx : list (Z * Z)) (mb : Z) : list (Z * Z) :=
+  map (fun p => if fst p =? mb then (fst p, snd p + 1) else p) nx.
+(** UPDATE mailboxes SET uid_next = ? WHERE id = ? *)
+Definition set_next (nx : list (Z * Z)) (mb v : Z) : list (Z * Z) :=
+  map (fun p => if fst p =? mb then (fst p, v) else p) nx.
+
+Definition with_links (s : st) (ls : list link) : st := mkSt ls (nexts s) (next_msg s).
+
+(** ---- MoveMessageToMailbox(messageID, source mailbox, source UID, ...): one
+    transaction; the new UID is the destination's uid_next, which is advanced.
     [None] = (false, nil) "already in the destination" or an error: in both
-    cases the caller goes on to the UPDATE ---- *)
-Definition move (ls : list link) (msg src u dest : Z) (fl : list str) : option (list link) :=
+    cases nothing changed and the caller goes on to the UPDATE ---- *)
+Definition move (s : st) (msg src u dest : Z) (fl : list str) : option st :=
   if src =? dest then None
   else
-    let nu := max_uid ls dest + 1 in
-    match insert ls (mkLink msg dest nu fl) with
+    let nu := next_of (nexts s) dest in
+    match insert (links s) (mkLink msg dest nu fl) with
     | None => None
-    | Some ls' => Some (filter (fun l => negb (has_key src u l)) ls')   (* DELETE ... WHERE mailbox_id = ? AND uid = ? *)
+    | Some ls' => Some (mkSt (filter (fun l => negb (has_key src u l)) ls')   (* DELETE ... WHERE mailbox_id = ? AND uid = ? *)
+                             (set_next (nexts s) dest (nu + 1)) (next_msg s))
     end.
 
 (** UPDATE message_mailbox SET flags = ? WHERE mailbox_id = ? AND uid = ?   (HandleStore and handleUIDStore) *)
@@ -109,45 +126,47 @@ Definition junk_added (cur upd : list str) : bool := negb (mem JUNK (to_set cur)
 Definition nonjunk_added (cur upd : list str) : bool := negb (mem NONJUNK (to_set cur)) && mem NONJUNK (to_set upd).
 
 (** body of the per-message loop of HandleStore / handleUIDStore after the row [l0] was read *)
-Definition store_row (e : env) (ls : list link) (mb : Z) (l0 : link) (item : str) (new : list str) : list link :=
+Definition store_row (e : env) (s : st) (mb : Z) (l0 : link) (item : str) (new : list str) : st :=
   let cur := lk_flags l0 in
   let upd := calculate_new_flags cur new item in
   let u := lk_uid l0 in
   if junk_added cur upd then
-    match move ls (lk_msg l0) mb u (spam_id e) (remove_flag_from_set (to_set upd) NONJUNK) with
-    | Some ls' => ls'                                  (* moved: "continue", no UPDATE *)
-    | None => upd_uid mb u ls upd
+    match move s (lk_msg l0) mb u (spam_id e) (remove_flag_from_set (to_set upd) NONJUNK) with
+    | Some s' => s'                                    (* moved: "continue", no UPDATE *)
+    | None => with_links s (upd_uid mb u (links s) upd)
     end
   else if nonjunk_added cur upd then
-    match move ls (lk_msg l0) mb u (inbox_id e) (remove_flag_from_set (to_set upd) JUNK) with
-    | Some ls' => ls'
-    | None => upd_uid mb u ls upd
+    match move s (lk_msg l0) mb u (inbox_id e) (remove_flag_from_set (to_set upd) JUNK) with
+    | Some s' => s'
+    | None => with_links s (upd_uid mb u (links s) upd)
     end
-  else upd_uid mb u ls upd.
+  else with_links s (upd_uid mb u (links s) upd).
 
 (** SELECT ... WHERE mailbox_id = ? AND uid = ?, then the loop body *)
-Definition store_uid_one (e : env) (mb : Z) (item : str) (new : list str) (ls : list link) (u : Z) : list link :=
-  match find_key ls mb u with
-  | None => ls
-  | Some l0 => store_row e ls mb l0 item new
+Definition store_uid_one (e : env) (mb : Z) (item : str) (new : list str) (s : st) (u : Z) : st :=
+  match find_key (links s) mb u with
+  | None => s
+  | Some l0 => store_row e s mb l0 item new
   end.
 
 (** HandleStore: mailboxUIDs[seq-1] for every expanded sequence number, taken
     before the loop *)
-Definition seq_targets (ls : list link) (mb : Z) (s : seqset) : list Z :=
-  flat_map (fun n => match nth_link ls mb n with Some l => [lk_uid l] | None => [] end) (expand_seq ls mb s).
-Definition store_seq (e : env) (ls : list link) (mb : Z) (s : seqset) (item : str) (new : list str) : list link :=
-  fold_left (store_uid_one e mb item new) (seq_targets ls mb s) ls.
+Definition seq_targets (ls : list link) (mb : Z) (q : seqset) : list Z :=
+  flat_map (fun n => match nth_link ls mb n with Some l => [lk_uid l] | None => [] end) (expand_seq ls mb q).
+Definition store_seq (e : env) (s : st) (mb : Z) (q : seqset) (item : str) (new : list str) : st :=
+  fold_left (store_uid_one e mb item new) (seq_targets (links s) mb q) s.
 (** handleUIDStore *)
-Definition store_uid (e : env) (ls : list link) (mb : Z) (s : seqset) (item : str) (new : list str) : list link :=
-  fold_left (store_uid_one e mb item new) (expand_uid ls mb s) ls.
+Definition store_uid (e : env) (s : st) (mb : Z) (q : seqset) (item : str) (new : list str) : st :=
+  fold_left (store_uid_one e mb item new) (expand_uid (links s) mb q) s.
 
-(** handleUIDCopy: one transaction; any INSERT error rolls everything back *)
+(** COPY / UID COPY: one transaction; UIDs are taken from the destination's
+    uid_next, which is written back at the end; any error rolls everything back *)
 Definition copy_flags (fl : list str) : list str :=
-  if mem RECENT (to_set fl) then fl else fl ++ [RECENT].
-Fixpoint copy_loop (ls : list link) (mb dest nu : Z) (uids : list Z) : option (list link) :=
+  if mem_ci RECENT fl then fl else fl ++ [RECENT].
+(** handleUIDCopy: a UID that is not there is skipped *)
+Fixpoint copy_loop (ls : list link) (mb dest nu : Z) (uids : list Z) : option (list link * Z) :=
   match uids with
-  | [] => Some ls
+  | [] => Some (ls, nu)
   | u :: us =>
       match find_key ls mb u with
       | None => copy_loop ls mb dest nu us
@@ -158,17 +177,38 @@ Fixpoint copy_loop (ls : list link) (mb dest nu : Z) (uids : list Z) : option (l
           end
       end
   end.
-Definition copy_uid (ls : list link) (mb : Z) (s : seqset) (dest : Z) : list link :=
-  match copy_loop ls mb dest (max_uid ls dest + 1) (expand_uid ls mb s) with
-  | Some ls' => ls'
-  | None => ls
+(** HandleCopy: rows are read by position (LIMIT 1 OFFSET n-1) inside the
+    transaction; a position that is not there ends the command with NO *)
+Fixpoint copy_seq_loop (ls : list link) (mb dest nu : Z) (ns : list Z) : option (list link * Z) :=
+  match ns with
+  | [] => Some (ls, nu)
+  | n :: ns' =>
+      match nth_link ls mb n with
+      | None => None
+      | Some l0 =>
+          match insert ls (mkLink (lk_msg l0) dest nu (copy_flags (lk_flags l0))) with
+          | None => None
+          | Some ls' => copy_seq_loop ls' mb dest (nu + 1) ns'
+          end
+      end
+  end.
+Definition copy_finish (s : st) (dest : Z) (r : option (list link * Z)) : st :=
+  match r with
+  | Some (ls', nu') => mkSt ls' (set_next (nexts s) dest nu') (next_msg s)
+  | None => s
+  end.
+Definition copy_uid (s : st) (mb : Z) (q : seqset) (dest : Z) : st :=
+  match expand_uid (links s) mb q with
+  | [] => s                                              (* OK, nothing done *)
+  | uids => copy_finish s dest (copy_loop (links s) mb dest (next_of (nexts s) dest) uids)
+  end.
+Definition copy_seq (s : st) (mb : Z) (q : seqset) (dest : Z) : st :=
+  match expand_seq (links s) mb q with
+  | [] => s                                              (* BAD Invalid sequence set *)
+  | ns => copy_finish s dest (copy_seq_loop (links s) mb dest (next_of (nexts s) dest) ns)
   end.
 
 (** APPEND: message row first, then IncrementUIDNextPerUser, then the INSERT *)
-Definition next_of (nx : list (Z * Z)) (mb : Z) : Z :=
-  match find (fun p => fst p =? mb) nx with Some p => snd p | None => 1 end.
-Definition bump (nx : list (Z * Z)) (mb : Z) : list (Z * Z) :=
-  map (fun p => if fst p =? mb then (fst p, snd p + 1) else p) nx.
 Definition append (s : st) (mb : Z) (fl : list str) : st :=
   let u := next_of (nexts s) mb in
   match insert (links s) (mkLink (next_msg s) mb u fl) with
@@ -176,8 +216,8 @@ Definition append (s : st) (mb : Z) (fl : list str) : st :=
   | None => mkSt (links s) (bump (nexts s) mb) (next_msg s + 1)
   end.
 
-(** hasFlag(flags, q);  instr(' ' || flags || ' ', ' q ') > 0 *)
-Definition has_flag (fl : list str) (q : str) : bool := mem q fl.
+(** hasFlag(flags, q) (strings.EqualFold);  instr(' ' || lower(flags) || ' ', ' lower(q) ') > 0 *)
+Definition has_flag (fl : list str) (q : str) : bool := mem_ci q fl.
 Definition DELETED : str := S_ "\Deleted".
 Definition SEEN : str := S_ "\Seen".
 (** HandleExpunge / HandleClose *)
@@ -186,20 +226,20 @@ Definition expunge (ls : list link) (mb : Z) : list link :=
 
 (** ---- operations of a history ---- *)
 Inductive op :=
-| OStore (ro silent : bool) (mb : Z) (s : seqset) (item : str) (new : list str)
-| OUidStore (ro silent : bool) (mb : Z) (s : seqset) (item : str) (new : list str)
-| OUidCopy (mb : Z) (s : seqset) (dest : Z)
+| OStore (ro silent : bool) (mb : Z) (q : seqset) (item : str) (new : list str)
+| OUidStore (ro silent : bool) (mb : Z) (q : seqset) (item : str) (new : list str)
+| OUidCopy (mb : Z) (q : seqset) (dest : Z)
+| OCopy (mb : Z) (q : seqset) (dest : Z)
 | OAppend (mb : Z) (fl : list str)
 | OExpunge (ro : bool) (mb : Z).
-
-Definition with_links (s : st) (ls : list link) : st := mkSt ls (nexts s) (next_msg s).
 
 (** [ro]: state.ReadOnly, set by EXAMINE: NO [READ-ONLY] / CLOSE without expunge *)
 Definition step (e : env) (s : st) (o : op) : st :=
   match o with
-  | OStore ro _ mb q item new => if ro then s else with_links s (store_seq e (links s) mb q item new)
-  | OUidStore ro _ mb q item new => if ro then s else with_links s (store_uid e (links s) mb q item new)
-  | OUidCopy mb q dest => with_links s (copy_uid (links s) mb q dest)
+  | OStore ro _ mb q item new => if ro then s else store_seq e s mb q item new
+  | OUidStore ro _ mb q item new => if ro then s else store_uid e s mb q item new
+  | OUidCopy mb q dest => copy_uid s mb q dest
+  | OCopy mb q dest => copy_seq s mb q dest
   | OAppend mb fl => append s mb fl
   | OExpunge ro mb => if ro then s else with_links s (expunge (links s) mb)
   end.
